@@ -3,7 +3,7 @@
 
    [parse source]   tlparser.ParseSchema on the bytes of the schema file (after the C14 fixes), projected
                     on names, ids, parameters (order, type, vector and flag markers) and result types;
-                    SPanic = a Go panic, SFuel = the loop budget ran out (never confused with a result).
+                    SPanic = a Go panic, SFuel = the loop budget ran out (C14_parse_terminates: it never does).
    [print s]        canonical text of a schema value.
    [wf_schema s]    the decidable description of the documented subset (identifier characters, ids below
                     2^32, bits 0..31, no name from the excluded list, ...).
@@ -29,14 +29,32 @@ Theorem C14_parse_print : forall s, wf_schema s = true -> parse (print s) = SOk 
 Proof. exact parse_print. Qed.
 Print Assumptions C14_parse_print.
 
-(* Termination.  Full statement, NOT proved:   forall source, parse source <> SFuel
-   (the default loop budget 2*len+64 is never exhausted).  The cursor can move BACKWARDS when IsNext fails
-   after having run into the end of the source, so no simple measure decreases; the check treats an SFuel of
-   the model and a hang of ParseSchema as result classes of their own and has met neither.
-   Proved part: the texts of the subset (and, in Inst/C14i.v, the shipped schema) are parsed within budget. *)
-Theorem C14_parse_terminates_partial : forall s, wf_schema s = true -> parse (print s) <> SFuel.
-Proof. intros s H. rewrite (parse_print s H). discriminate. Qed.
-Print Assumptions C14_parse_terminates_partial.
+(* ParseSchema terminates: for every byte string the loop budget [parse] gives itself (2*len+64; len+2
+   is enough) is never exhausted, so [parse] returns a schema or an error.  Every continuing iteration of
+   the top-level loop and of the parameter loop leaves the cursor strictly further than it found it.
+   (This needed two repairs of the code: IsNext rewound too far at the end of the source, and the first
+   word of a definition was un-read by its byte length: ParseSchema never returned on "//\n-" resp. on
+   "a#1 = A;" followed by a line starting with three emoji.) *)
+Theorem C14_parse_terminates : forall source, parse source <> SFuel.
+Proof. exact parse_terminates. Qed.
+Print Assumptions C14_parse_terminates.
+
+Theorem C14_parse_fuel_linear : forall source fuel,
+  (length source + 2 <= fuel)%nat -> parse_fuel fuel source <> SFuel.
+Proof. exact parse_fuel_linear. Qed.
+Print Assumptions C14_parse_fuel_linear.
+
+(* so the parser model is a total function into {schema, error} *)
+Corollary C14_parse_result : forall source, (exists s, parse source = SOk s) \/ parse source = SErr.
+Proof.
+  intros source. pose proof (parse_terminates source) as Ht. pose proof (parse_total (default_fuel source) source) as Hp.
+  unfold parse in *. destruct (parse_fuel (default_fuel source) source); [left; eauto|right; reflexivity|congruence|congruence].
+Qed.
+Print Assumptions C14_parse_result.
+
+(* the earlier partial statement, now a corollary *)
+Corollary C14_parse_terminates_partial : forall s, wf_schema s = true -> parse (print s) <> SFuel.
+Proof. intros s _. apply parse_terminates. Qed.
 
 (* the hypothesis is satisfiable by a schema using every feature of the subset *)
 Example C14_parse_print_example :
